@@ -102,7 +102,7 @@ func idsString(ids [][]byte) string {
 
 func TestC19_IdentitiesAndPointer(t *testing.T) {
 	rec := recorder("C19")
-	rec.AddRule("rapid state machine over one Gnosis keyper (real schema on pgfake; verif-tagged constructor): queues of 0..N transactions over 1-2 keyper sets with gas at MinGasPerTransaction / around EncryptedGasLimit/k / at and above the limit and, one in twelve, near 2^31 / 2^32 / 2^62 / 2^63-1 (always >= MinGasPerTransaction, the configured lower bound), pointer rows {absent, before, inside, at, beyond the queue end} x age {0, max, max+1, unknown}; actions: slot trigger (age increment as maybeTriggerDecryption does, then the real triggerDecryption), keys received (real DecryptionKeysHandler.HandleMessage; for the newest trigger, for the trigger before it - late keys - or for a made-up one), keys self-produced (real middleware SendMessage), restart (ResetAllTxPointerAges), queue grows. Oracle: reference selection written from the statement (pointer used; slot identity + queue entries from the pointer while cumulative gas <= limit, at least one; sorted, slot identity first); the trigger on the channel and the current_decryption_trigger row (slot, pointer, keccak of identities) equal the reference; a second keyper on a clone of the database produces a byte-identical list; after a keys message with k keys at pointer p the row is (p+k-1, age 0). non-trivial = selection stopped by the gas limit, used the at-least-one rule, or fell back to the queue length; distinct by history")
+	rec.AddRule("rapid state machine over one Gnosis keyper (real schema on pgfake; verif-tagged constructor): queues of 0..N transactions over 1-2 keyper sets with gas at MinGasPerTransaction / around EncryptedGasLimit/k / at and above the limit and, one in twelve, near 2^31 / 2^32 / 2^62 / 2^63-1 (always >= MinGasPerTransaction, the configured lower bound), maximum pointer age 0-3 or, one in eight, 2^32 / 2^63-2 / 2^63-1; pointer rows {absent, before, inside, at, beyond the queue end} x age {0, max, max+1, unknown}; actions: slot trigger (age increment as maybeTriggerDecryption does, then the real triggerDecryption), keys received (real DecryptionKeysHandler.HandleMessage; for the newest trigger, for the trigger before it - late keys - or for a made-up one), keys self-produced (real middleware SendMessage), restart (ResetAllTxPointerAges), queue grows. Oracle: reference selection written from the statement (pointer used; slot identity + queue entries from the pointer while cumulative gas <= limit, at least one; sorted, slot identity first); the trigger on the channel and the current_decryption_trigger row (slot, pointer, keccak of identities) equal the reference; a second keyper on a clone of the database produces a byte-identical list; after a keys message with k keys at pointer p the row is (p+k-1, age 0). non-trivial = selection stopped by the gas limit, used the at-least-one rule, or fell back to the queue length; distinct by history")
 	rec.Assume("pgfake; transaction identity prefixes are non-zero so the slot identity sorts first (the SSZ type and contract fix sizes; see DESIGN C19)")
 	ctx := context.Background()
 	runRapid(t, N(1000, 500000), func(rt *rapid.T) {
@@ -111,6 +111,10 @@ func TestC19_IdentitiesAndPointer(t *testing.T) {
 		cfgG.Gnosis.EncryptedGasLimit = uint64(rapid.SampledFrom([]int{100_000, 250_000, 1_000_000}).Draw(rt, "gasLimit"))
 		cfgG.Gnosis.MinGasPerTransaction = 21_000
 		cfgG.Gnosis.MaxTxPointerAge = uint64(rapid.IntRange(0, 3).Draw(rt, "maxAge"))
+		if rapid.IntRange(0, 7).Draw(rt, "maxAgeHuge") == 0 {
+			// the largest values the configuration check admits
+			cfgG.Gnosis.MaxTxPointerAge = rapid.SampledFrom([]uint64{math.MaxInt64, math.MaxInt64 - 1, 1 << 32}).Draw(rt, "maxAgeV")
+		}
 		n := newDBNode(gnosisdb.Definition, 4)
 		defer n.Close()
 		model := &c19Model{Queue: map[int64][]queueTx{}, Pointer: map[int64]*struct {
@@ -188,9 +192,15 @@ func TestC19_IdentitiesAndPointer(t *testing.T) {
 				age = &a
 			case 1:
 				a := model.MaxAge
+				if a > 1<<40 {
+					a = 5 // (a stored age near 2^63 cannot be incremented in a bigint column)
+				}
 				age = &a
 			case 2:
 				a := model.MaxAge + 1
+				if model.MaxAge > 1<<40 {
+					a = 6
+				}
 				age = &a
 			}
 			nv := sql.NullInt64{}
